@@ -12,7 +12,7 @@
      outcome= L [] task returned | L [x] task raised
    input  = L [A 100; conn1; conn2] : two such connections on one server, output = L [out1; out2] *)
 From EN Require Import Lib.Bytes Lib.Sx Frame.Framer Frame.ReadUntil Frame.BufReadUntil Stream.Consumer Stream.Endpoint
-  Conc.StreamServer Conc.StreamServerMulti Run.Stream.
+  Conc.StreamServer Conc.StreamServerSpec Conc.StreamServerMulti Run.Stream.
 
 Definition as_sitem (x : sx) : option sitem :=
   match x with
@@ -145,8 +145,47 @@ Definition run2 (i1 i2 : sx) : sx :=
   | _ => bad_input
   end.
 
+(* ---- end-to-end over the real asyncio transport (family 300): one connection whose transport is the REAL
+   AsyncioTransportStreamSocketAdapter + StreamReaderBufferedProtocol (the harness plays the selector), a handler that only
+   yields timeouts and catches TimeoutError, read events tied with the expiry of the yielded timeouts in both orders; the
+   peer closes at the end.  Timeouts are not observed; by requests_exactly_once_in_order (peer-ended case) the requests and
+   parse errors seen by the handler must be the whole decoding of the stream:
+   input  = L [A 300; conn; ...]  (conn: peer = what was sent, then eof; its acts are ignored)
+   output = L [L [A 0; B pkt] | L [A 1; A errcode] ...] *)
+Definition got_sx (r : nres (option bytes)) : sx :=
+  match r with
+  | RPkt (Some p) => L [A 0; B p]
+  | RPkt None => L [A (-1)]
+  | RErr e => L [A 1; A (err_code e)]
+  | _ => L [A 9]
+  end%Z.
+
+Definition run_e (i : sx) : sx :=
+  match i with
+  | L (A kind :: cfg :: d :: ps :: _ :: _ :: A bufsize :: _) =>
+      do dec <- mk_dec d;
+      do o <- as_list_of as_sitem ps;
+      let bs := Z.to_nat bufsize in
+      let acts := repeat (AYield None) (S (S (speer_size o))) in
+      let out := fun (C : Type) (M : machine (option bytes) C) (c0 : C) =>
+                   L (map got_sx (StreamServerSpec.got_log (ulog (f_user (client_coroutine M 0 acts c0 o))))) in
+      match kind, cfg with
+      | 0%Z, L [B sep; A limit; A ke] =>
+          let F := ru_framer sep (Z.to_nat limit) (Z.eqb ke 1) dec in out _ (copy_machine F bs) (cinit F)
+      | 1%Z, L (B sep :: A limit :: A ke :: _) =>
+          let F := bru_framer sep (Z.to_nat limit) (Z.eqb ke 1) dec in out _ (buf_machine F bs) (bcinit F)
+      | 2%Z, L [A size] =>
+          let F := rx_framer (Z.to_nat size) dec in out _ (copy_machine F bs) (cinit F)
+      | 3%Z, L (A size :: _) =>
+          let F := bfx_framer (Z.to_nat size) dec in out _ (buf_machine F bs) (bcinit F)
+      | _, _ => bad_input
+      end
+  | _ => bad_input
+  end.
+
 Definition run (i : sx) : sx :=
   match i with
   | L [A 100%Z; i1; i2] => run2 i1 i2
+  | L (A 300%Z :: conn :: _) => run_e conn
   | _ => run1 i
   end.
